@@ -121,6 +121,7 @@ pub struct Executor {
 impl Executor {
     fn key(sc: &Scenario) -> u64 {
         let mut h = fnv(0xcbf2_9ce4_8422_2325, sc.program.as_bytes());
+        h = fnv(h, &[sc.label.starts_with("sandbox:") as u8]);
         h = fnv(h, &sc.env.compile_layout_seed.to_le_bytes());
         h = fnv(h, &sc.env.id_skip_seed.to_le_bytes());
         fnv(h, &sc.env.id_skip_max.to_le_bytes())
@@ -131,7 +132,10 @@ impl Executor {
         if self.cache.as_ref().map_or(true, |(k, _)| *k != key) {
             self.cache = None;
             self.compiles += 1;
-            match engine::compile(&sc.program, &sc.env) {
+            engine::set_sandbox(sc.label.starts_with("sandbox:"));
+            let compiled = engine::compile(&sc.program, &sc.env);
+            engine::set_sandbox(false);
+            match compiled {
                 Ok(scope) => self.cache = Some((key, scope)),
                 Err(Ok(msg)) => return Exec::CompileError(msg),
                 Err(Err(p)) => return Exec::CompilePanic(p),
